@@ -235,6 +235,11 @@ def no_bypass(res: CheckResult, prog: Program):
         for c in calls_in(fi.node, lambda c: isinstance(c.func, ast.Attribute) and c.func.attr == 'merge' and len(c.args) == 1 and not c.keywords):
             found += 1
             ok = fi.short == 'RunningOrder.__add__'
+            if not ok and fi.cls is not None and fi.cls.name in ('RunningOrder', 'MosFile') and fi.name.startswith('_') and not fi.name.startswith('__'):
+                # a private helper that is called from RunningOrder.__add__ and from nowhere else is part of the dispatch
+                callers = [g.short for g in prog.all_functions() if g is not fi
+                           and calls_in(g.node, lambda k: isinstance(k.func, ast.Attribute) and k.func.attr == fi.name)]
+                ok = callers == ['RunningOrder.__add__']
             res.add('NO-BYPASS', fi.short, norm(c), ok, '' if ok else 'a merge is invoked without going through RunningOrder.__add__ (completion guard bypassed)',
                     fi.file, c.lineno)
     if not found:
